@@ -73,6 +73,11 @@ func oracleC02(r *Result) {
 				continue
 			}
 			S := ac.Snap
+			if rep.Kind == RKRedirect && S.ACS != "" && len(storageFaults(t)) == 0 {
+				// a redirect that carries no SAML message the consumer could find: whatever it targets, it is not the stored pair
+				bad("redirect-without-message", fmt.Sprintf("the redirect delivers the response to the stored consumer URL %q", S.ACS), rep.Target)
+				continue
+			}
 			if rep.Msg == nil {
 				continue
 			}
